@@ -524,7 +524,8 @@ P_C05_run(c, run) ==
     IN IF stacked
        THEN \* (e) stacked fallback: full-width rules and separators, every cell line within the width
             /\ IsRuleLine(g[1]) /\ IsRuleLine(g[n])
-            /\ \A y \in 1..n : (IsSlashLine(g[y]) \/ (IsRuleLine(g[y]) /\ ~nested)) => Len(g[y]) = run.w
+            \* (a nested table that is itself stacked draws its separators at the width of its cell)
+            /\ ~nested => \A y \in 1..n : (IsSlashLine(g[y]) \/ IsRuleLine(g[y])) => Len(g[y]) = run.w
             /\ \A y \in 1..n : Len(g[y]) <= run.w
             /\ ~fitsOneLine
        ELSE /\ \A y \in 1..n : Len(g[y]) = Len(g[1])                       \* (a)
